@@ -455,12 +455,73 @@ fn across_stats_period(seed: u64, rep: &Report) -> Result<(), String> {
     Ok(())
 }
 
+/// Server logins that FAIL (server refusing connections, then answering the startup with a FATAL
+/// error): nothing of them may stay behind in SHOW SERVERS / sv_login once things are quiet.
+fn failed_server_logins(seed: u64, rep: &Report) -> Result<(), String> {
+    let mut rng = Rng::new(seed);
+    let (mut cell, mut cfg) = simple_cell(&["primary"], 2, "transaction");
+    cfg.gset("connect_timeout", "300");
+    cell.start_pgcat(&cfg, &StartOpts::default()).map_err(|e| format!("start: {:?}", e))?;
+    let addr = cell.addr();
+    let mut adm = cell.pg().admin().map_err(|e| format!("admin: {}", e))?;
+    let ctl = cell.mocks[0].ctl.clone();
+    let mut c = Conn::connect(&addr, &StartupOpts::new(USER, "db", PASS).app("fl")).map_err(|e| e.to_string())?;
+    let _ = c.query(&format!("SELECT 1 {}", tag("fl", "fl.q0", "rows=1")), 5000);
+    for round in 0..rng.range(2, 4) {
+        // all pooled server connections die, the server then refuses / breaks new logins for a while
+        let how = *rng.pick(&[crate::mock::LISTEN_DOWN, crate::mock::LISTEN_ACCEPT_CLOSE]);
+        ctl.listen.store(how, std::sync::atomic::Ordering::SeqCst);
+        ctl.kill_sessions();
+        for k in 0..3 {
+            let r = c.query(&format!("SELECT 1 {}", tag("fl", &format!("fl.r{}.{}", round, k), "rows=1")), 5000);
+            if r.is_err() {
+                c = Conn::connect(&addr, &StartupOpts::new(USER, "db", PASS).app("fl")).map_err(|e| e.to_string())?;
+            }
+        }
+        ctl.listen.store(crate::mock::LISTEN_UP, std::sync::atomic::Ordering::SeqCst);
+        sleep_ms(50);
+        // service is back
+        let mut ok = false;
+        for k in 0..10 {
+            match c.query(&format!("SELECT 1 {}", tag("fl", &format!("fl.b{}.{}", round, k), "rows=1")), 5000) {
+                Ok(m) if crate::wire::first_error(&m).is_none() => {
+                    ok = true;
+                    break;
+                }
+                Ok(_) => sleep_ms(100),
+                Err(_) => {
+                    c = Conn::connect(&addr, &StartupOpts::new(USER, "db", PASS).app("fl")).map_err(|e| e.to_string())?;
+                }
+            }
+        }
+        if !ok {
+            return Err("service did not come back after the server was reachable again".into());
+        }
+    }
+    // quiescent point: two identical consecutive samples
+    sleep_ms(400);
+    let live = cell.mocks[0].ctl.live_sessions();
+    let servers = admin_rows(&mut adm, "SHOW SERVERS")?;
+    let pools = admin_rows(&mut adm, "SHOW POOLS")?;
+    rep.count("failed_server_login_scenarios", 1);
+    let sv_login: i64 = pools.iter().filter(|r| r.get("database").map(|d| d.as_str()) == Some("db")).map(|r| num(r, "sv_login")).sum();
+    if servers.len() != live || sv_login != 0 {
+        rep.violation(
+            "C18|server_rows_left_behind_by_failed_server_logins",
+            &format!("after server logins had failed and service was back: SHOW SERVERS lists {} rows (states {:?}), the backend has {} live sessions, sv_login={}", servers.len(), servers.iter().map(|r| r.get("state").cloned().unwrap_or_default()).collect::<Vec<_>>(), live, sv_login),
+            json!({"seed": seed}),
+        );
+    }
+    c.terminate();
+    Ok(())
+}
+
 pub fn run(tier: &str) -> i32 {
     let rep = Report::new(
         "C18",
         tier,
         "exploration",
-        "scenario = 3-7 phases of joins, failed logins, generated transactions (all protocols), pool-exhaustion checkout failures and departures by Terminate / FIN / RST / FIN mid-transaction / malformed message (decoder panic) idle or mid-transaction; after each phase a quiescent point (two identical consecutive admin samples); oracle = SHOW CLIENTS/POOLS/SERVERS/LISTS/STATS vs the harness ledger of connected clients and the mock's counters of client transactions and requests; totals monotone, also across the collector's 15 s statistics-period boundary (dedicated long-lived instances); distinct = scenario seeds",
+        "scenario = 3-7 phases of joins, failed logins, generated transactions (all protocols), pool-exhaustion checkout failures and departures by Terminate / FIN / RST / FIN mid-transaction / malformed message (decoder panic) idle or mid-transaction; after each phase a quiescent point (two identical consecutive admin samples); oracle = SHOW CLIENTS/POOLS/SERVERS/LISTS/STATS vs the harness ledger of connected clients and the mock's counters of client transactions and requests; server logins that fail (server down / closing during startup) must leave no row behind; totals monotone, also across the collector's 15 s statistics-period boundary (dedicated long-lived instances); distinct = scenario seeds",
     );
     rep.assume("statement caching off so that every batch reaches the server; comparisons only at quiescent points (counters are deliberately unsynchronised)");
     let thorough = rep.thorough();
@@ -471,7 +532,13 @@ pub fn run(tier: &str) -> i32 {
     let n_long = if thorough { 8 } else { 2 };
     run_parallel(n + n_long, workers(), |i| {
         rep.eval(1);
-        let r = if i < n_long { across_stats_period(seeds[i] ^ 0x15, &rep) } else { scenario(seeds[i - n_long], &rep) };
+        let r = if i < n_long {
+            across_stats_period(seeds[i] ^ 0x15, &rep)
+        } else if (i - n_long) % 8 == 5 {
+            failed_server_logins(seeds[i - n_long], &rep)
+        } else {
+            scenario(seeds[i - n_long], &rep)
+        };
         if let Err(e) = r {
             rep.inconclusive(&e);
         }
